@@ -1340,6 +1340,15 @@ func makeTaskForMesosResources(
 	offerIDsToDecline map[mesos.OfferID]struct{},
 ) (*Task, *mesos.TaskInfo) {
 
+	// Claim the static ports first, so that neither this task nor a later one on this offer draws them
+	staticPortsBuilder := resources.BuildRanges()
+	for _, rng := range wants.StaticPorts {
+		staticPortsBuilder = staticPortsBuilder.Span(rng.Begin, rng.End)
+	}
+	remainingResourcesInOffer.Subtract(resources.Build().
+		Name(resources.Name("ports")).
+		Ranges(staticPortsBuilder.Ranges.Sort().Squash()).Resource)
+
 	bindMap := make(channel.BindMap)
 	for _, ch := range wants.InboundChannels {
 		if ch.Addressing == channel.IPC {
